@@ -227,7 +227,7 @@ func (e *Engine) ceval(x CExpr, env *Env) Value {
 				if env.fc == nil || env.st == nil {
 					cfail("contract index into slice of structs needs a program state")
 				}
-				return env.fc.heapLoad(env.st, b.Elem, b.Ref, elemIx(b.Off, idx.T))
+				return env.fc.heapLoadX(env.st, b.Elem, b.Ref, elemIx(b.Off, idx.T), len(env.bound) == 0)
 			}
 			return Sc{app("select", app("select", e.heapFor(env, es), b.Ref), elemIx(b.Off, idx.T)), es}
 		case OSeqV:
